@@ -43,14 +43,14 @@ func allSpecs() map[string]*PropSpec {
 	add(&PropSpec{
 		ID:          "C10",
 		Technique:   "typestate of include resolution on go/cfg: ancestor-stack discipline (mark/unmark on all exits), must-pass-through of cycle and already-loaded tests, canonical-path check of the resolver's return sites (SSA)",
-		Explanation: "G-ANCESTOR: the mark placed in the set tested by the cycle check is removed on every exit of the function that places it (ancestor-stack discipline; otherwise a diamond is a false cycle). G-GUARD: every recursive load is reached only after the membership test that returns on a cycle (termination on cyclic graphs). G-DEPTH: the value compared with the depth limit is the length of the include stack. G-CONTINUE: the loop over include directives has no return/break, and every load error built on the recursion carries the include directive's range. Decided on go/cfg for all include graphs at once. G-CANON: every path the resolver returns is the result of filepath.Clean/Join/Abs (a file is identified by its resolved path in the visited set, the cache and the result).",
+		Explanation: "G-ANCESTOR: the mark placed in the set tested by the cycle check is removed on every exit of the function that places it (ancestor-stack discipline; otherwise a diamond is a false cycle). G-GUARD: every recursive load is reached only after the membership test that returns on a cycle (termination on cyclic graphs). G-DEPTH: the value compared with the depth limit is the length of the include stack. G-CONTINUE: the loop over include directives has no return/break, and every load error built on the recursion carries the include directive's range. Decided on go/cfg for all include graphs at once. G-CANON: every path the resolver returns is the result of filepath.Clean/Join/Abs (a file is identified by its resolved path in the visited set, the cache and the result). G-LOADSTATE: the per-load state consists of the ancestor set and the loaded set only; any further map or slice (a memo between include steps) is reported as undecided.",
 		NotDecided:  "path canonicalisation and glob matching semantics (ResolvePathSafe, doublestar); that each reachable file appears exactly once as a value-level fact (the 'loaded' set is checked only through G-CACHEPATH in C11).",
 		Rules:       []func(*Ctx){ruleLoaderCycle},
 	})
 	add(&PropSpec{
 		ID:          "C11",
 		Technique:   "control-dependence analysis of the include step w.r.t. the cache lookup (AST+cfg), type reachability of the cache entry, hit-path use of every cache-entry field (SSA slicing), invalidation control dependence in change/save handlers",
-		Explanation: "G-CACHEPATH: every path that records an included file in the result continues to the call that processes that file's own include directives, so a cache hit and a cache miss do the same work; the cache value type holds per-file parse results only. G-INVALIDATE: the didChange and didSave handlers drop the changed file's cache entry on a path not conditioned on a workspace; the invalidation methods mutate the cache under the loader's write lock. G-ANCESTOR/G-GUARD/G-DEPTH as in C10 (cycle verdicts must not depend on history either). G-CACHEFIELDS: every field of the cache entry is read from an entry found by the cache lookup (nothing that the first load reports is lost on a hit). G-INVALIDATE is decided by control dependence (nested guard and early return alike).",
+		Explanation: "G-CACHEPATH: every path that records an included file in the result continues to the call that processes that file's own include directives, so a cache hit and a cache miss do the same work; the cache value type holds per-file parse results only. G-INVALIDATE: the didChange and didSave handlers drop the changed file's cache entry on a path not conditioned on a workspace; the invalidation methods mutate the cache under the loader's write lock. G-ANCESTOR/G-GUARD/G-DEPTH as in C10 (cycle verdicts must not depend on history either). G-CACHEFIELDS: every field of the cache entry is read from an entry found by the cache lookup (nothing that the first load reports is lost on a hit). G-INVALIDATE is decided by control dependence (nested guard and early return alike). G-CACHEPURE: nothing of the including directive (its position) flows into a cache entry. G-LOADSTATE: the per-load state consists of the ancestor set and the loaded set only; any further map or slice is reported as undecided.",
 		NotDecided:  "equality of results across a call history as values (needs execution); staleness of files changed on disk without an invalidation notification.",
 		Rules:       []func(*Ctx){ruleLoaderCache, ruleLoaderCycle},
 	})
